@@ -407,6 +407,9 @@ WRAPPER_ALIASES = {
 }
 
 
+# keyword-argument records whose attributes are their keyword arguments (sklearn.utils.Bunch, SimpleNamespace)
+RECORD_CONSTRUCTORS = {"sklearn.utils.Bunch", "types.SimpleNamespace", "sklearn.utils._bunch.Bunch"}
+
 # autograd protocol: `.grad` is rewritten by these calls, so a read of `.grad` is keyed by the calls seen so far
 VOLATILE_ATTRS = {"grad"}
 EFFECT_METHODS = {"backward", "zero_grad", "step"}
@@ -947,6 +950,11 @@ class Evaluator:
         key = (obj, attr)
         if key in st.heap:
             return st.heap[key]
+        if obj.op == "call" and obj.args[0].op == "global" and obj.args[0].args[0] in RECORD_CONSTRUCTORS:
+            # attribute of a record built from keyword arguments: Bunch(a=x).a is x
+            for k, v in obj.args[2]:
+                if k == attr:
+                    return v
         fi, cls_ctx, _cs, self_term = self._cur()
         cls = self._class_of(obj)
         if cls is not None:
